@@ -3,7 +3,7 @@ package main
 import "fmt"
 
 var muxHdrClasses = []string{"none", "bare", "pts", "ptsdts", "full"}
-var muxAFClasses = []string{"none", "none", "rai", "pcr", "raipcr", "priv10", "rich", "stuffed", "onebyte"}
+var muxAFClasses = []string{"none", "none", "rai", "pcr", "raipcr", "priv10", "rich", "stuffed", "onebyte", "discpcr"}
 var muxStreamTypes = []int{27, 15, 0x81, 6, 3, 2, 0x24, 0xd1}
 
 func boundaryLen(r *rng, hdr, af string, big bool) int {
